@@ -284,6 +284,60 @@ def lcd_column(shape: int, a: int, b: int, c: int) -> bool:
     return verdict(ok, nontrivial=nt, sample=sample)
 
 
+# ---- shipped example / test kernels: reported LCDs vs independent cycle enumeration -------------------
+
+def _example_lcd_concrete(ex):
+    import copy as _copy
+    from harness._pipeline import analyze, example_lines, EXAMPLES
+    lines = example_lines(ex)
+    res = analyze("\n".join(lines) + "\n", EXAMPLES[ex][1], whole=True, timeout=-1)
+    g, kernel = res["dg"], res["kernel"]
+    # doubled kernel exactly as a second loop iteration (fresh copies, shifted line numbers), edges from the real create_DG
+    offset = max(1000, max(k.line_number for k in kernel))
+    doubled = list(kernel)
+    for k in kernel:
+        c = _copy.copy(k)
+        c.line_number += offset
+        doubled.append(c)
+    dg2 = g.create_DG(doubled)
+    succ = {}
+    for u, v, w in dg2.edges(data="latency"):
+        succ.setdefault(u, []).append((v, w))
+    ref = {}
+
+    def dfs(node, target, path, lat):
+        if node == target:
+            members = tuple(sorted(set((int(n) if n < offset else int(n - offset)) for n in path[:-1] if int(n) == n)))
+            key = tuple(sorted(((n if n < offset else n - offset), w) for n, w in lat))
+            ref[key] = (members, sum(w for _, w in lat))
+            return
+        for v, w in succ.get(node, []):
+            if v <= target and v not in path:
+                dfs(v, target, path + [v], lat + [(node, w)])
+    for k in kernel:
+        dfs(k.line_number, k.line_number + offset, [k.line_number], [])
+    want = sorted((m, l) for m, l in ref.values())
+    got = sorted((tuple(sorted(x.line_number for x, _ in d["dependencies"])), d["latency"]) for d in g.get_loopcarried_dependencies().values())
+    ok = len(got) == len(want) and all(a[0] == b[0] and abs(a[1] - b[1]) < 1e-9 for a, b in zip(got, want))
+    ok = ok and abs(res["summary"]["lcd"] - (max(l for _, l in want) if want else 0.0)) < 1e-9
+    return ok, len(want) > 0, {"kernel": EXAMPLES[ex][0], "arch": EXAMPLES[ex][1], "lcds": len(want), "max": res["summary"]["lcd"]}
+
+
+def examples(ex: int) -> bool:
+    """
+    pre: 0 <= ex < 16
+    post: _
+    """
+    if skip(locals()):
+        return True
+    from vp.symx import pick
+    lo, hi = shard(16)
+    if not (lo <= ex < hi):
+        return True
+    ok, nt, sample = native(_example_lcd_concrete, pick(ex, 16))
+    return verdict(ok, nontrivial=nt, sample=sample)
+
+
 # ---- flags --------------------------------------------------------------------------------
 
 def lcd_flags(fw0: bool, fr0: bool, fw1: bool, fr1: bool, fw2: bool, fr2: bool, flag_deps: bool, samename: bool) -> bool:
@@ -334,6 +388,7 @@ CELLS = {
                         "budget": {"thorough": 1200}, "shards": 10},
     "lcd_numbers_float": {"fn": lcd_numbers_float, "tiers": ("thorough",), "bound": "same shapes, real-valued latencies (CrossHair real-based floats)", "budget": {"thorough": 900}, "shards": 8},
     "lcd_column": {"fn": lcd_column, "bound": "LCD column of the combined report on the 10 cycle shapes x latencies from {0,1,3} per instruction (zero-latency edges included)", "budget": {"quick": 150, "thorough": 300}},
+    "examples": {"fn": examples, "bound": "16 shipped example/test kernels on zen1/zen2/tx2: reported LCDs (members, latency, count) and summary vs an independent DFS over the doubled kernel's real dependency graph", "budget": {"quick": 170, "thorough": 300}, "shards": 4},
     "lcd_flags": {"fn": lcd_flags, "bound": "n=3, flag read/write bits per instruction, flag_dependencies on/off, same/different flag name", "budget": {"quick": 170, "thorough": 600}},
 }
 
